@@ -5,8 +5,8 @@ package core
 import (
 	"bytes"
 	"fmt"
-	"go/printer"
 	"go/ast"
+	"go/printer"
 	"go/token"
 	"go/types"
 	"os"
@@ -122,7 +122,74 @@ func Load(repo, tier string, overlay map[string][]byte) (*Ctx, error) {
 			return nil, fmt.Errorf("root package %s is not in %s", p.PkgPath, Module)
 		}
 	}
+	if os.Getenv("CANVASCHECK_NO_CANON") == "" {
+		for path, p := range c.All {
+			if path == Module || strings.HasPrefix(path, Module+"/") {
+				canonComparisons(p)
+			}
+		}
+	}
 	return c, nil
+}
+
+// canonComparisons puts every comparison of the module's syntax trees into one orientation, so
+// that no rule depends on which operand the author wrote first: `a > b` becomes `b < a`, `a >= b`
+// becomes `b <= a`; in `==`/`!=` a constant (or nil) operand goes to the right, and two
+// non-constant operands are ordered by their printed form. The operands are swapped in place:
+// the nodes keep their identity, so the type information (and the SSA built afterwards) stays
+// valid; the swap is behaviour-preserving except for the evaluation order of the two operands.
+func canonComparisons(p *packages.Package) {
+	info := p.TypesInfo
+	isConst := func(e ast.Expr) bool {
+		if tv, ok := info.Types[e]; ok && (tv.Value != nil || tv.IsNil()) {
+			return true
+		}
+		return false
+	}
+	var pending []func()
+	for _, f := range p.Syntax {
+		ast.Inspect(f, func(n ast.Node) bool {
+			be, ok := n.(*ast.BinaryExpr)
+			if !ok {
+				return true
+			}
+			order := func() {
+				cx, cy := isConst(be.X), isConst(be.Y)
+				switch {
+				case cx && !cy:
+					be.X, be.Y = be.Y, be.X
+				case cx == cy:
+					if types.ExprString(be.X) > types.ExprString(be.Y) {
+						be.X, be.Y = be.Y, be.X
+					}
+				}
+			}
+			switch be.Op {
+			case token.GTR:
+				be.X, be.Y, be.Op = be.Y, be.X, token.LSS
+			case token.GEQ:
+				be.X, be.Y, be.Op = be.Y, be.X, token.LEQ
+			case token.EQL, token.NEQ:
+				pending = append(pending, order)
+			case token.MUL, token.ADD:
+				// commutative on numbers (not on strings); the two operands of one node are
+				// ordered, the association of a chain is left as written (it decides the rounding)
+				if os.Getenv("CANVASCHECK_NO_CANON_ARITH") == "" {
+					if t := info.TypeOf(be); t != nil {
+						if b, ok := t.Underlying().(*types.Basic); ok && b.Info()&types.IsNumeric != 0 {
+							pending = append(pending, order)
+						}
+					}
+				}
+			}
+			return true
+		})
+		// operands are ordered bottom-up, so that the printed form of an operand is already canonical
+		for i := len(pending) - 1; i >= 0; i-- {
+			pending[i]()
+		}
+		pending = pending[:0]
+	}
 }
 
 // Pkg returns a loaded package by import path suffix relative to the module ("" = root package).
